@@ -80,9 +80,25 @@ def build(spec):
     raise AssertionError(spec)
 
 
+def child_at(w, path):
+    """the widget reached by child indices (items of containers, the child of a CenterWidget is index 0); None if the path leaves the tree"""
+    for i in path:
+        if isinstance(w, RC.Container):
+            if i >= len(w._items): return None
+            w = w._items[i].widget
+        elif isinstance(w, RW.CenterWidget) and i == 0: w = w._w
+        else: return None
+    return w
+
+
 def run_tree(case):
     w = build(case["tree"]); out = []
-    for op, a in case["ops"]:
+    for o in case["ops"]:
+        op, a = o[0], o[1]
+        if op == "add_at":
+            t = child_at(w, a)
+            if t is not None and hasattr(t, "add"): t.add(build(o[2]))
+            continue
         if op == "render":
             try:
                 w.render(a); out.append(obs(w))
